@@ -419,8 +419,104 @@ def long_indices(n, r):
     return sorted(i for i in idx if 0 <= i < n)
 
 
+# ---- sequences: several calls in ONE process, arranged so that state carried across calls would show ----------
+STEP_KEYS = ("fn", "uin", "uout", "container", "form", "kw", "pts", "reuse")
+
+
+def step_of(c):
+    """the call spec of a case / step (JSON-able)"""
+    return {k: c[k] for k in STEP_KEYS if k in c}
+
+
+def run_steps(steps, tables=None):
+    """execute the call specs in order in THIS process -> (results, argument objects of the last call).
+    A step with reuse=True is called with the argument OBJECTS of the previous array step, their contents
+    overwritten in place with this step's values (same object, new contents); tables (libm oracle recording)
+    applies to the last step only."""
+    import numpy as np
+    res, kept, args = [], None, None
+    for i, st in enumerate(steps):
+        cont, form, pts = st["container"], st.get("form", "plain"), st["pts"]
+        if st.get("reuse") and kept is not None and all(isinstance(a, np.ndarray) and a.shape == (len(pts),) and
+                                                        a.flags.writeable for a in kept):
+            for j, a in enumerate(kept):
+                a[...] = [p[j] for p in pts]
+            args = kept
+        else:
+            args = build_args(cont, form, pts)
+        if all(isinstance(a, np.ndarray) and a.ndim == 1 for a in args):
+            kept = args
+        res.append(invoke(st["fn"], st["uin"], st["uout"], args, len(pts), tables if i == len(steps) - 1 else None,
+                          st.get("kw", "given")))
+    return res, args
+
+
+CHILD = {"jobs": {}, "pool": None, "runs": 0, "full": {}}     # full: sequence id -> all its steps
+
+
+def _child_run(steps):
+    """the steps executed in order in a FRESH python process (nothing else has been called in it)"""
+    import json
+    import subprocess
+    CHILD["runs"] += 1
+    r = subprocess.run([core.PY, "-c", "from harness.props import c08_seq; c08_seq.main()"], input=json.dumps(steps),
+                       stdout=subprocess.PIPE, stderr=subprocess.PIPE, text=True, cwd=core.VERIF, timeout=300)
+    if r.returncode != 0:
+        return [("err", "EOther", "child process failed: %s" % r.stderr[-200:])] * len(steps)
+    return [tuple(x) for x in json.loads(r.stdout)]
+
+
+def child_submit(steps):
+    """start the fresh process for these steps in the background (results are collected by child_result)"""
+    import json
+    from concurrent.futures import ThreadPoolExecutor
+    key = json.dumps(steps, sort_keys=True)
+    if key not in CHILD["jobs"]:
+        if CHILD["pool"] is None:
+            CHILD["pool"] = ThreadPoolExecutor(8)
+        CHILD["jobs"][key] = CHILD["pool"].submit(_child_run, steps)
+
+
+def child_result(steps):
+    import json
+    key = json.dumps(steps, sort_keys=True)
+    if key not in CHILD["jobs"]:
+        child_submit(steps)
+    return CHILD["jobs"][key].result()
+
+
+def run_seq_case(c):
+    """one step of a sequence, self-contained (its history travels with the case):
+       main     the step's call after its history, in this process (float model + property checker as usual)
+       swapped  the same call with the points exchanged (same argument objects)
+       elem     the same call made ALONE in a fresh process            -- must be bit-identical
+       shifted  the same call after the same history in a fresh process -- must agree (slot of the +360 comparison)"""
+    hist, me = c["seq"]["hist"], step_of(c)
+    n = len(c["pts"])
+    tabs = {} if n <= ORC_MAX_PAIRS else None
+    res, args = run_steps(hist + [me], tables=tabs)
+    out = {"main": res[-1], "orc": tabs if tabs else None}
+    if c["container"] == "bcast":
+        out["swapped"] = res[-1]
+    else:
+        out["swapped"] = invoke(c["fn"], c["uin"], c["uout"], [args[2], args[3], args[0], args[1]], n, None,
+                                c.get("kw", "given"))
+    alone = dict(me)
+    alone.pop("reuse", None)
+    out["elem"] = child_result([alone])[0]
+    full = CHILD["full"].get(c["seq"]["sid"])
+    if full is not None and full[:len(hist) + 1] == hist + [me]:
+        out["shifted"] = child_result(full)[len(hist)]        # one fresh process runs the whole sequence
+    else:
+        out["shifted"] = child_result(hist + [me])[-1]         # replay of a single step: its own history only
+    out["shifted_pts"] = c["pts"]
+    return out
+
+
 def run_case(c):
     import numpy as np
+    if c.get("seq") is not None:
+        return run_seq_case(c)
     fn, uin, uout, cont, pts = c["fn"], c["uin"], c["uout"], c["container"], c["pts"]
     form, kw, lg = c.get("form", "plain"), c.get("kw", "given"), c.get("long")
     if lg is not None:
@@ -600,8 +696,115 @@ class Sep(Entry):
                 cs.append(self.mk(ctx, "mixed", "array", r.choice([4, 9, 33]), elem="permuted", label="permuted/array"))
         return cs
 
+    def seq_cases(self, ctx, k):
+        """sequences of calls in one process (DESIGN: state carried across calls).  Every step is a case of its own
+        that carries its history; the numbers of a sequence are valid coordinates in BOTH units (longitude in
+        [0, 2 pi], |latitude| <= 1.5), so that the same values can be presented under different options."""
+        r, fn, out = ctx.rng, self.fn, []
+
+        def both_units(npts, ints=False):
+            ps = []
+            for _ in range(npts):
+                if ints:
+                    p = [float(r.randrange(0, 7)), float(r.choice([-1, 0, 1])), float(r.randrange(0, 7)), float(r.choice([-1, 0, 1]))]
+                else:
+                    p = [r.uniform(0.0, 6.28), r.uniform(-1.5, 1.5), r.uniform(0.0, 6.28), r.uniform(-1.5, 1.5)]
+                    k_ = r.random()
+                    if k_ < 0.2:
+                        p[2] = p[0]
+                    elif k_ < 0.3:
+                        p[3] = p[1]
+                ps.append(p)
+            return ps
+
+        def units_list():
+            if fn == "gcirc":
+                return [("deg", "rad")]
+            us = [("deg", "deg"), ("rad", "rad"), ("deg", "rad"), ("rad", "deg")]
+            r.shuffle(us)
+            return us
+
+        def step(pts, cont, units, form="plain", kw="given", reuse=False):
+            st = {"fn": fn, "uin": units[0], "uout": units[1], "container": cont, "pts": pts}
+            if form != "plain":
+                st["form"] = form
+            if kw != "given":
+                st["kw"] = kw
+            if reuse:
+                st["reuse"] = True
+            return st
+
+        def emit(kind, steps):
+            sid = "%s-%s-%d" % (fn, kind, r.randrange(10 ** 9))
+            CHILD["full"][sid] = [dict(x) for x in steps]
+            child_submit(CHILD["full"][sid])
+            for i, st in enumerate(steps):
+                c = dict(st)
+                c.update({"shift": None, "family": "seq:%s/%d" % (kind, i), "elem": "fresh",
+                          "seq": {"sid": sid, "i": i, "hist": [dict(x) for x in steps[:i]]}})
+                out.append(c)
+                alone = dict(st)
+                alone.pop("reuse", None)
+                child_submit([alone])
+
+        gk = ["omitted", "getangle-true", "getangle-false"]
+        for _ in range(k):
+            # (b) the same numbers under every unit combination / keyword form, scalars then arrays
+            p = both_units(1)
+            us = units_list()
+            steps = [step(p, "scalar", u) for u in us] + [step(p, "scalar", us[0])]
+            steps += [step(p, "len1", us[1 % len(us)]), step(p, "list", us[-1])]
+            if fn == "sphdist":
+                steps += [step(p, "scalar", ("deg", "deg"), kw="omitted"), step(p, "scalar", ("rad", "rad"), kw="tuple")]
+            else:
+                steps += [step(p, "scalar", us[0], kw=q) for q in gk[1:]]
+            if ctx.quick():
+                steps = steps[:5] + [r.choice(steps[5:])] if fn == "sphdist" else steps[:1] + r.sample(steps[1:], 3)
+            emit("same-numbers", steps)
+            # (b') equal numbers in other dtypes (python int 1 == 1.0 == float32 1.0 as a key)
+            p = both_units(1, ints=True)
+            us = units_list()
+            steps = [step(p, "scalar", us[0], form="pyint"), step(p, "scalar", us[-1]),
+                     step(p, "scalar", us[0], form="f4"), step(p, "len1", us[-1], form="i8"),
+                     step(p, "scalar", us[-1], form="npscalar"), step(p, "scalar", us[0], form="0d")]
+            if ctx.quick():
+                steps = steps[:2] + r.sample(steps[2:], 2)
+            emit("same-numbers-dtypes", steps)
+            # (a) the same argument objects again after their contents were changed in place; then other objects
+            #     with the first contents; then the first objects under another option
+            n = r.choice([3, 5, 9])
+            p1, p2 = both_units(n), both_units(n)
+            us = units_list()
+            steps = [step(p1, "array", us[0]), step(p2, "array", us[0], reuse=True), step(p1, "array", us[0]),
+                     step(p1, "array", us[-1], reuse=True), step(p2, "array", us[0], form="strided")]
+            if ctx.quick():
+                steps = steps[:4]
+            emit("same-objects", steps)
+            # (b'') inputs that agree in what a lazy key would use: length, first and last pair, sum (permutation)
+            n = r.choice([4, 6])
+            p1 = both_units(n)
+            p2 = [p1[0]] + both_units(n - 2) + [p1[-1]]
+            p3 = [p1[0]] + p1[1:-1][::-1] + [p1[-1]]
+            us = units_list()
+            steps = [step(p1, "array", us[0]), step(p2, "array", us[0]), step(p3, "array", us[0]),
+                     step(p1[::-1], "array", us[0]), step(p1, "list", us[0]), step(p2, "array", us[-1])]
+            if ctx.quick():
+                steps = steps[:3] + [r.choice(steps[3:])]
+            emit("lazy-key", steps)
+            # (d) special points: 0.0, -0.0, exactly equal coordinates, one coordinate exactly zero
+            x, y = r.uniform(0.1, 6.0), r.uniform(-1.4, 1.4)
+            us = units_list()
+            sp = [[0.0, 0.0, x, y], [-0.0, 0.0, x, y], [0.0, -0.0, x, y], [x, 0.0, x, y], [0.0, y, x, y],
+                  [0.0, 0.0, 0.0, 0.0], [-0.0, 0.0, 0.0, -0.0], [x, y, x, y],
+                  [0.25, 0.0, 0.25 + r.uniform(3.3, 5.9), 0.0], [x, y, x, -y], [0.0, y, 0.0, -y], [x, 0.0, 0.0, 0.0]]
+            r.shuffle(sp)
+            steps = [step([q], "scalar", us[i % len(us)]) for i, q in enumerate(sp[:ctx.n(3, 5)])]
+            steps += [step([sp[0]], "scalar", us[-1]), step(sp[:3], "len3", us[0])]
+            emit("special-points", steps)
+        return out
+
     def cases(self, ctx, round=0):
-        cs = []
+        cs = self.seq_cases(ctx, ctx.n(1, 4)) if round == 0 else []
         k = ctx.n(1, 8) * (1 if round == 0 else 2)
         for fam in FAMILIES:
             for _ in range(6 * k):
@@ -635,7 +838,8 @@ class Sep(Entry):
         return ("v_long " if c.get("long") is not None else "v_full ") + full_args(c, out)
 
     def show(self, c):
-        # ([outs_ok; swapped identical; other container form identical; +360 within 2 tol],
+        # ([outs_ok; swapped identical; other container form identical; +360 within 2 tol],   for a sequence step the
+        #  3rd = the call made alone in a fresh process, the 4th = the call after the same history in a fresh process
         #  outputs of the binary64 reading of the source on the case's inputs with the call's own libm values)
         out = run_case(c)
         orc = out.get("orc")
@@ -743,7 +947,7 @@ def cert_pool(entries, ctx, budget):
                     fixed.append(it)
                 else:
                     g = c["family"].split("/")[0]
-                    g = "forms" if g.startswith(("form:", "kw:", "permuted")) else g
+                    g = "forms" if g.startswith(("form:", "kw:", "permuted")) else "seq" if g.startswith("seq:") else g
                     byfam.setdefault((c["fn"], g, c["uin"], c["uout"]), []).append(it)
             sh = out.get("shifted")
             if sh is not None and sh[0] == "ok" and n <= 40 and all(math.isfinite(x) for x in sh[1]):
@@ -753,7 +957,7 @@ def cert_pool(entries, ctx, budget):
                      "out": sh[1][i], "family": "shifted+360/" + c["family"]})
     # round-robin over (function, family) groups, the families of the quantifier's adversarial list first, so that
     # every prefix of the pool (the first batch always runs) is spread over all of them; units are mixed inside a group
-    prio = ["poles", "tiny", "antipodal", "large", "forms", "seam", "uniform", "same-direction", "shifted+360", "mixed", "equal"]
+    prio = ["poles", "tiny", "antipodal", "large", "forms", "seq", "seam", "uniform", "same-direction", "shifted+360", "mixed", "equal"]
     groups = {}
     for k in sorted(byfam):
         groups.setdefault((prio.index(k[1]) if k[1] in prio else len(prio), k[1], k[0]), []).extend(byfam[k])
@@ -930,6 +1134,7 @@ def run(ctx, replay=None):
     ctx.count("observed:RuntimeWarning-raised-inside-esutil", WARN_COUNT["n"])
     for k, v in ORC_STATS.items():
         ctx.count("float-model:calls-%s" % k, v)
+    ctx.count("sequence:fresh-processes", CHILD["runs"])
     # 5. certificates
     import time
     t0 = time.time()
@@ -941,7 +1146,7 @@ def run(ctx, replay=None):
     while done < len(items):
         now = time.time()
         if done == 0:
-            n = min(len(items), ctx.n(72, 256))
+            n = min(len(items), ctx.n(52, 256))
         else:
             room = int((deadline - now) / ((now - t0) / done))
             if room < 16:
